@@ -81,6 +81,13 @@ class Tr:
             if ta == tb == "str" and isinstance(e.op, ast.Add):
                 return "(%s ++ %s)" % (a, b), "str"
             raise Unsupported("binop types")
+        if isinstance(e, ast.Compare) and len(e.ops) == 1 and isinstance(e.ops[0], ast.In) \
+                and isinstance(e.comparators[0], ast.Tuple) \
+                and all(isinstance(x, ast.Constant) and isinstance(x.value, str) for x in e.comparators[0].elts):
+            a, ta = self.expr(e.left)
+            if ta != "str":
+                raise Unsupported("membership of non-str")
+            return "(" + " || ".join("str_eqb %s %s" % (a, lit(x.value)) for x in e.comparators[0].elts) + ")%bool", "bool"
         if isinstance(e, ast.Compare) and len(e.ops) == 1:
             (a, ta), (b, tb) = self.expr(e.left), self.expr(e.comparators[0])
             op = e.ops[0]
@@ -110,6 +117,22 @@ class Tr:
                     raise Unsupported("slice bound")
                 return "(py_slice_from %s %s)" % (s, g), "str"
             raise Unsupported("slice form")
+        if isinstance(e, ast.Call) and not e.keywords and isinstance(e.func, ast.Attribute) and e.func.attr == "get" \
+                and isinstance(e.func.value, ast.Attribute) and e.func.value.attr == "attributes" \
+                and isinstance(e.func.value.value, ast.Name) and e.func.value.value.id == "self" \
+                and len(e.args) == 1 and isinstance(e.args[0], ast.Tuple) and len(e.args[0].elts) == 2 \
+                and self.env.get("self.attributes") == "attrs":
+            ns, key = e.args[0].elts
+            if isinstance(ns, ast.Name) and ns.id in ("XML_NAMESPACE", "XMLNS_NAMESPACE"):
+                g_ns = {"XML_NAMESPACE": "xml_ns", "XMLNS_NAMESPACE": "xmlns_ns"}[ns.id]
+            else:
+                g_ns, t = self.expr(ns)
+                if t != "str":
+                    raise Unsupported("attribute namespace")
+            g_k, t = self.expr(key)
+            if t != "str":
+                raise Unsupported("attribute name")
+            return "(get_attr %s %s self_attributes)" % (g_ns, g_k), "optstr"
         if isinstance(e, ast.Call) and not e.keywords:
             f = e.func
             if isinstance(f, ast.Attribute):
@@ -226,6 +249,33 @@ class Tr:
         if isinstance(s, ast.AugAssign) and isinstance(s.op, ast.Add) and isinstance(s.target, ast.Name):
             g, t = self.expr(ast.BinOp(left=ast.Name(id=s.target.id, ctx=ast.Load()), op=ast.Add(), right=s.value))
             return "let %s := %s in\n  %s" % (s.target.id, g, self.block(rest, result_vars))
+        if isinstance(s, ast.Expr) and isinstance(s.value, ast.Call) and isinstance(s.value.func, ast.Attribute) \
+                and isinstance(s.value.func.value, ast.Name) and s.value.func.value.id == "warnings" \
+                and s.value.func.attr == "warn":
+            return self.block(rest, result_vars)  # a warning has no effect on the value
+        if isinstance(s, ast.If) and not s.orelse and s.body and isinstance(s.body[-1], ast.Return) \
+                and result_vars is None:
+            # `if c: ...; return X` followed by the rest  ==  if c then X else rest
+            t = s.test
+            if isinstance(t, ast.Compare) and len(t.ops) == 1 and isinstance(t.ops[0], ast.Is) \
+                    and isinstance(t.left, ast.Name) and isinstance(t.comparators[0], ast.Constant) \
+                    and t.comparators[0].value is None and self.env.get(t.left.id) == "optstr":
+                saved = dict(self.env)
+                a = self.block(s.body)
+                self.env = dict(saved)
+                self.env[t.left.id] = "str"
+                b = self.block(rest)
+                self.env = saved
+                return "match %s with\n  | None => %s\n  | Some %s => %s\n  end" % (t.left.id, a, t.left.id, b)
+            test, tt = self.expr(t)
+            if tt != "bool":
+                raise Unsupported("if test type")
+            saved = dict(self.env)
+            a = self.block(s.body)
+            self.env = dict(saved)
+            b = self.block(rest)
+            self.env = saved
+            return "if %s then %s else\n  %s" % (test, a, b)
         if isinstance(s, ast.If):
             if any(isinstance(x, ast.Return) for x in ast.walk(s)):
                 raise Unsupported("return inside if")
@@ -309,18 +359,22 @@ def find(tree, qual):
     return node
 
 
-COQ_TY = {"str": "str", "int": "Z", "bool": "bool"}
+COQ_TY = {"str": "str", "int": "Z", "bool": "bool", "optstr": "option str"}
 
 
-def tr_function(src, qual, coqname, argtypes, rettype):
+def tr_function(src, qual, coqname, argtypes, rettype, self_attributes=False, allow_defaults=False):
     f = find(ast.parse(src), qual)
     args = [a.arg for a in f.args.args if a.arg not in ("self", "cls")]
-    if f.args.vararg or f.args.kwarg or f.args.kwonlyargs or f.args.defaults:
+    if f.args.vararg or f.args.kwarg or f.args.kwonlyargs or (f.args.defaults and not allow_defaults):
         raise Unsupported("signature of " + qual)
     if len(args) != len(argtypes):
         raise Unsupported("arity of " + qual)
-    t = Tr(dict(zip(args, argtypes)))
+    env = dict(zip(args, argtypes))
     binders = " ".join("(%s : %s)" % (a, COQ_TY[ty]) for a, ty in zip(args, argtypes))
+    if self_attributes:
+        env["self.attributes"] = "attrs"
+        binders = "(self_attributes : list attr) " + binders
+    t = Tr(env)
     return "Definition %s %s : %s :=\n  %s." % (coqname, binders, COQ_TY[rettype], t.block(f.body))
 
 
